@@ -1,4 +1,5 @@
 """C16 Variable / name bookkeeping"""
+import evlm
 import eevent
 import eunits
 import evnm
@@ -26,4 +27,9 @@ def run(ctx):
     eevent.check_manager(ctx, F, "oxidd_manager_pointer")
     nfn, _ = eunits.run(ctx, F, crates=("oxidd_core", "oxidd_manager_index", "oxidd_manager_pointer"))
     ctx.floor("E-UNITS", "function bodies analysed", nfn, 400)
+    ctx.explain("E-VLM: the managers' variable <-> level maps stay mutually inverse permutations: extend appends the identity "
+                "(new variables at the new bottom levels), swap_levels exchanges exactly two levels in both vectors, lookups read "
+                "their own vector; the index-based and the pointer-based manager's copies are the same program.")
+    nv = evlm.run(ctx, F)
+    ctx.floor("E-VLM", "interpreted VarLevelMap situations", nv, 38)
     ctx.not_decided = "the bijection over call sequences as behaviour; that adding variables preserves functions"
